@@ -149,55 +149,61 @@ func genC14(g *Gen) {
 			e.setDec("x", x)
 			g.emit(e)
 		default:
-			var c *big.Int
-			switch g.r.Intn(8) {
-			case 0:
-				c = randCoef(g.r)
-			case 1: // short digits then many decimal zeros
-				c = new(big.Int).Mul(randDigits(g.r, 1+g.r.Intn(34)), pow10([]int{0, 1, 4, 18, 19, 20, 37, 38, 39, 57, 76, 100, 300}[g.r.Intn(13)]))
-			case 2: // just too many digits
-				c = randDigits(g.r, 35+g.r.Intn(4))
-			case 3:
-				n := lens[g.r.Intn(len(lens))]
-				b := make([]byte, n)
-				g.r.Read(b)
-				c = new(big.Int).SetBytes(b)
-			case 6: // digits, a run of zeros, then a short non-zero tail: exactness must be refused at every reduction step
-				c = new(big.Int).Mul(randDigits(g.r, 1+g.r.Intn(60)), pow10([]int{4, 5, 7, 8, 9, 12, 16, 19, 20, 23, 27, 38}[g.r.Intn(12)]))
-				c.Add(c, big.NewInt(int64(1+g.r.Intn(9999))))
-			case 4:
-				c = new(big.Int).Add(cMax, big.NewInt(int64(g.r.Intn(3)-1)))
-			default:
-				c = new(big.Int)
-			}
-			sig := c.Bytes()
-			if g.r.Intn(3) == 0 {
-				sig = append(make([]byte, g.r.Intn(20)), sig...)
-			}
-			var exp int
-			switch g.r.Intn(5) {
-			case 0:
-				exp = expEdges[g.r.Intn(len(expEdges))]
-			case 1: // compensate the trailing zeros / digits around the ends of the range
-				nd := len(c.String())
-				exp = []int{eMin, eMax}[g.r.Intn(2)] - nd + g.r.Intn(2*nd+6) - 3
-			case 2:
-				exp = g.r.Intn(12600) - 6300
-			default:
-				exp = g.r.Intn(81) - 40
-			}
-			form := 0
-			switch g.r.Intn(12) {
-			case 0:
-				form = 1
-			case 1:
-				form = 2
-			case 2:
-				form = g.r.Intn(256)
-			}
-			e := Ev{"op": "Compose", "form": form, "neg": g.r.Intn(2) == 0, "sig": ints(sig), "exp": exp}
-			e.setDec("prev", randAny(g.r))
-			g.emit(e)
+			g.emit(g.composeCall(lens, expEdges))
 		}
 	}
+}
+
+// composeCall: a Compose call with a structured coefficient (digit runs, zero runs, short tails, word boundaries),
+// exponents around every range threshold, all forms
+func (g *Gen) composeCall(lens []int, expEdges []int) Ev {
+	var c *big.Int
+	switch g.r.Intn(8) {
+	case 0:
+		c = randCoef(g.r)
+	case 1: // short digits then many decimal zeros
+		c = new(big.Int).Mul(randDigits(g.r, 1+g.r.Intn(34)), pow10([]int{0, 1, 4, 18, 19, 20, 37, 38, 39, 57, 76, 100, 300}[g.r.Intn(13)]))
+	case 2: // just too many digits
+		c = randDigits(g.r, 35+g.r.Intn(4))
+	case 3:
+		n := lens[g.r.Intn(len(lens))]
+		b := make([]byte, n)
+		g.r.Read(b)
+		c = new(big.Int).SetBytes(b)
+	case 6: // digits, a run of zeros, then a short non-zero tail: exactness must be refused at every reduction step
+		c = new(big.Int).Mul(randDigits(g.r, 1+g.r.Intn(60)), pow10([]int{4, 5, 7, 8, 9, 12, 16, 19, 20, 23, 27, 38}[g.r.Intn(12)]))
+		c.Add(c, big.NewInt(int64(1+g.r.Intn(9999))))
+	case 4:
+		c = new(big.Int).Add(cMax, big.NewInt(int64(g.r.Intn(3)-1)))
+	default:
+		c = new(big.Int)
+	}
+	sig := c.Bytes()
+	if g.r.Intn(3) == 0 {
+		sig = append(make([]byte, g.r.Intn(20)), sig...)
+	}
+	var exp int
+	switch g.r.Intn(5) {
+	case 0:
+		exp = expEdges[g.r.Intn(len(expEdges))]
+	case 1: // compensate the trailing zeros / digits around the ends of the range
+		nd := len(c.String())
+		exp = []int{eMin, eMax}[g.r.Intn(2)] - nd + g.r.Intn(2*nd+6) - 3
+	case 2:
+		exp = g.r.Intn(12600) - 6300
+	default:
+		exp = g.r.Intn(81) - 40
+	}
+	form := 0
+	switch g.r.Intn(12) {
+	case 0:
+		form = 1
+	case 1:
+		form = 2
+	case 2:
+		form = g.r.Intn(256)
+	}
+	e := Ev{"op": "Compose", "form": form, "neg": g.r.Intn(2) == 0, "sig": ints(sig), "exp": exp}
+	e.setDec("prev", randAny(g.r))
+	return e
 }
